@@ -99,6 +99,16 @@ def build_shim():
     return out
 
 
+class ExecutorDied(Broken):
+    """The executor process died while executing a request against the code under test (abort, stack overflow, panic).
+    Checks that drive libcnb in-process turn this into a violation with the request as witness; uncaught it is BROKEN."""
+
+    def __init__(self, status, req, args):
+        Broken.__init__(self, "executor %s died (status %s) on request %s" % (args, status, json.dumps(req)[:2000]))
+        self.status = status
+        self.req = req
+
+
 class Mon:
     """A persistent executor process: one JSON request per line in, one JSON
     reply per line out."""
@@ -117,7 +127,7 @@ class Mon:
         line = self.p.stdout.readline()
         if not line:
             rc = self.p.wait()
-            raise Broken("executor %s died (status %s) on request %s" % (self.args, rc, json.dumps(req)[:2000]))
+            raise ExecutorDied(rc, req, self.args)
         return json.loads(line)
 
     def close(self):
